@@ -201,12 +201,8 @@ func runC04(s *core.Sim, tier string) RunInfo {
 			}
 		case "restart":
 			hist = append(hist, "restart")
-			if err := w.Stop(); err != nil {
-				s.Violate("stop-error", nil, "Stop: %v", err)
-				break
-			}
 			s.Probe("restart")
-			if err := w.Open(); err != nil {
+			if err := w.Restart(); err != nil { // a new Store over the datastore, or the same object again
 				s.Violate("start-error", nil, "Start after Stop: %v (model %s)", err, m.String())
 				break
 			}
